@@ -102,7 +102,7 @@ def ww3(env, dirs, latlon_time, winds):
         env.claim("wspd" in out and "wdir" in out and "dpt" in out, "wind and depth variables kept under their standard names")
 
 
-SW_DIRS = {"deg4": (0.0, 90.0, 180.0, 270.0), "past_turn": (15.0, 105.0, 195.0, 285.0, 375.0 - 360.0 + 360.0), "desc_offset": (450.0, 330.0, 210.0), "neg": (-170.0, -50.0, 70.0)}
+SW_DIRS = {"deg4": (0.0, 90.0, 180.0, 270.0), "past_turn": (100.0, 190.0, 280.0, 370.0), "desc_offset": (450.0, 330.0, 210.0), "neg": (-170.0, -50.0, 70.0)}
 
 
 @harness(P, quick=grid(dirs=["deg4", "desc_offset"], winds=[True]) + grid(dirs=["neg"], winds=[False]), thorough=grid(dirs=list(SW_DIRS), winds=[True, False]))
@@ -151,7 +151,7 @@ def _winds(env, out, u, v, label):
                 env.claim(angdiff(float(wd[idx]), ref) < 1e-6, label + ": wind direction = (270 - atan2(v,u)) mod 360, coming-from", {"got": float(wd[idx]), "ref": ref})
 
 
-@harness(P, quick=grid(dirs=["deg4", "desc_offset"], winds=[True]), thorough=grid(dirs=list(SW_DIRS), winds=[True, False]))
+@harness(P, quick=grid(dirs=["deg4", "desc_offset"], winds=[True]) + grid(dirs=["neg"], winds=[False]), thorough=grid(dirs=list(SW_DIRS), winds=[True, False]))
 def wwm(env, dirs, winds):
     from wavespectra.input.wwm import from_wwm
     from wavespectra.input.dataset import read_dataset
